@@ -84,6 +84,8 @@ def make_inputs(tier, seed, wd):
                             def nb(bs):
                                 out = []
                                 for b in bs:
+                                    if b['counts'][3] == 0:
+                                        continue
                                     agg = {}
                                     for a in b['aec']:
                                         kk = (a['t'], a.get('code'), a.get('tf'), a['ip'])
@@ -109,6 +111,24 @@ def reencode(r, data):
     for n in cbor.walk(doc.root):
         if n.major == cbor.MAP and n.ann == 'BlockPreamble' and r.random() < 0.7:
             n.value = [(k, v) for k, v in n.value if not (k.value == 1 and v.value == 0)]
+        if n.major == cbor.MAP and n.ann == 'Block' and r.random() < 0.5:
+            # block tables that hold the same value twice (valid; a producer that does not de-duplicate): two existing
+            # addresses are appended once more and one record is re-pointed at the last copy
+            members = {k.value: v for k, v in n.value}
+            tabs = members.get(2)
+            qrs = members.get(3)
+            if tabs is not None and qrs is not None and tabs.major == cbor.MAP:
+                ipt = [v for k, v in tabs.value if k.value == 0]
+                cands = [(q, vv) for q in qrs.value if q.major == cbor.MAP for kk, vv in q.value if kk.value == 1 and vv.major == cbor.UINT]
+                if ipt and ipt[0].major == cbor.ARRAY and ipt[0].value and cands:
+                    arr = ipt[0]
+                    q, ref = r.choice(cands)
+                    if ref.value < len(arr.value):
+                        arr.value.append(cbor.Node(cbor.BSTR, arr.value[0].value))
+                        arr.value.append(cbor.Node(cbor.BSTR, arr.value[ref.value].value))
+                        arr.width = None
+                        ref.value = len(arr.value) - 1
+                        ref.width = None
         if n.major == cbor.MAP and n.ann == 'Block':
             # an address event reported as two items with the same key and different counts (valid; a producer that does
             # not aggregate writes it like this)
@@ -124,6 +144,11 @@ def reencode(r, data):
                                 cnt[0].width = None
                                 extra.append(cbor.Node(cbor.MAP, [(cbor.Node(cbor.UINT, kk.value), cbor.Node(vv.major, vv.value if kk.value != 4 else take)) for kk, vv in item.value]))
                     v.value.extend(extra)
+    if r.random() < 0.4 and doc.blocks_node is not None:
+        # a block without any item (valid: only the block preamble is mandatory); merge drops it, itemcount reports 0 0 0 for it
+        empty = cbor.Node(cbor.MAP, [(cbor.Node(cbor.UINT, 0), cbor.Node(cbor.MAP, []))])
+        doc.blocks_node.value.insert(r.randrange(len(doc.blocks_node.value) + 1), empty)
+        doc.blocks_node.width = None
     return rewrite.rewrite(r, cbor.encode(doc.root), ['permute_maps', 'indef_container'], p=0.6)[0]
 
 
@@ -211,7 +236,8 @@ def expected_blocks(members):
 
 
 def canon(b):
-    return {'qr': b['qr'], 'mm': b['mm'], 'aec': sorted(b['aec'], key=lambda a: json.dumps(a, sort_keys=True)), 'stats': b['stats'], 'earliest': b['earliest']}
+    # (the block's earliest-time is neither a record nor a statistic: a merge may normalise it, record times are absolute here)
+    return {'qr': b['qr'], 'mm': b['mm'], 'aec': sorted(b['aec'], key=lambda a: json.dumps(a, sort_keys=True)), 'stats': b['stats']}
 
 
 ITEMCOUNT_OPTS = [[], ['-b'], ['-p'], ['-b', '-p'], ['-p', '-b']]
@@ -301,7 +327,7 @@ def run(tier, seed):
                 continue
             for bi, ((gb, gbp), (eb, ebp)) in enumerate(zip(got, exp)):
                 if canon(gb) != canon(eb):
-                    part = [k for k in ('qr', 'mm', 'aec', 'stats', 'earliest') if canon(gb)[k] != canon(eb)[k]]
+                    part = [k for k in ('qr', 'mm', 'aec', 'stats') if canon(gb)[k] != canon(eb)[k]]
                     vs.append(Violation(PROP, '%s:merge:block-content:%s' % (PROP, '+'.join(part)), 'block %d of the merged file differs from its source block in %s (inputs %s)' % (bi, part, desc), payload))
                     break
                 if gbp != ebp:
